@@ -48,7 +48,7 @@ def conflicts(a: str, b: str) -> bool:
 
 
 def plan(tier, seed):
-    n = 2400 if tier == "quick" else 40000
+    n = 2400 if tier == "quick" else 60000
     shards = 16 if tier == "quick" else 48
     return [{"seed": seed * 1000003 + i, "n": n // shards, "max_depth": 3 if tier == "quick" else 4}
             for i in range(shards)]
